@@ -44,7 +44,7 @@ class nat:
     @custom_function(NoopCompiler())
     def __ceil__(self: nat) -> nat: ...
 
-    @hugr_op(int_op("idivmod_u", n_vars=2))
+    @hugr_op(int_op("idivmod_u"))
     def __divmod__(self: nat, other: nat) -> tuple[nat, nat]: ...
 
     @custom_function(BoolOpCompiler(int_op("ieq")))
